@@ -184,7 +184,7 @@ for m in sorted(TYPE):
             emit(f"lemma unconditional_{m}(): {TYPE[m]}.IsUnconditionalBranch() && !{TYPE[m]}.IsConditionalBranch()")
 emit()
 
-head = open(os.path.join(here, "risc_head.txt")).read()
+head = open(os.path.join(here, "risc_head.txt")).read() + open(os.path.join(here, "risc_parser.txt")).read()
 with open(os.path.join(here, "risc", "zz_contracts_verif.go"), "w") as f:
     f.write(head)
     f.write("\n// ---- generated by /verif/contracts/gen_risc.py from the RV32IM table ----\n\n//@ mode bv\n\n")
